@@ -30,3 +30,143 @@ Proof.
   - discriminate Hnf.
   - assert (E : (o1, @Unsupp A) = m2) by (apply Hm; reflexivity). subst m2. reflexivity.
 Qed.
+
+Section Mono.
+Variable P : plan.
+Variable eps : f64.
+
+Lemma evals_with_mle ev1 ev2 :
+  (forall e s, mle (ev1 e s) (ev2 e s)) ->
+  forall es s, mle (evals_with ev1 es s) (evals_with ev2 es s).
+Proof.
+  intros H es; induction es as [|e r IH]; intros s; cbn [evals_with].
+  - apply mle_refl.
+  - apply bind_mle; [apply H|]. intros [v s1]. apply bind_mle; [apply IH|].
+    intros [vs s2]. apply mle_refl.
+Qed.
+
+Lemma indices_with_mle ev1 ev2 :
+  (forall e s, mle (ev1 e s) (ev2 e s)) ->
+  forall es s, mle (indices_with ev1 es s) (indices_with ev2 es s).
+Proof.
+  intros H es; induction es as [|e r IH]; intros s; cbn [indices_with].
+  - apply mle_refl.
+  - apply bind_mle; [apply H|]. intros [v s1]. apply bind_mle; [apply mle_refl|].
+    intros i. apply bind_mle; [apply IH|]. intros [is s2]. apply mle_refl.
+Qed.
+
+Lemma mutate_with_mle ev1 ev2 :
+  (forall e s, mle (ev1 e s) (ev2 e s)) ->
+  forall o op s, mle (mutate_with ev1 o op s) (mutate_with ev2 o op s).
+Proof.
+  intros H o op s. unfold mutate_with. destruct o; try apply mle_refl.
+  destruct (flatten_target _ _) as [[[vn vl] ix]|]; [|apply mle_refl].
+  apply bind_mle; [apply indices_with_mle; exact H|]. intros [path s1]. apply mle_refl.
+Qed.
+
+Lemma stmts_with_mle ex1 ex2 :
+  (forall t s, mle (ex1 t s) (ex2 t s)) ->
+  forall ts s, mle (stmts_with P ex1 ts s) (stmts_with P ex2 ts s).
+Proof.
+  intros H ts; induction ts as [|t r IH]; intros s; cbn [stmts_with].
+  - apply mle_refl.
+  - destruct (in_plan_stmt P (stmt_sid t)); [apply IH|].
+    apply bind_mle; [apply H|]. intros [fl s']. destruct fl; try apply mle_refl. apply IH.
+Qed.
+
+Ltac mle_step :=
+  first
+    [ apply mle_refl
+    | apply mle_fuel
+    | apply bind_mle; [ | intros ]
+    | match goal with
+      | |- mle (match ?x with _ => _ end) (match ?x with _ => _ end) => destruct x
+      | |- mle (if ?x then _ else _) (if ?x then _ else _) => destruct x
+      | |- mle (let '(a, b) := ?x in _) _ => destruct x
+      end ].
+
+(* one unfolding step: if level n is below level m for all four functions, so is S n / S m *)
+Lemma mono_step n m :
+  (forall e s, mle (eval P eps n e s) (eval P eps m e s)) ->
+  (forall t s, mle (exec P eps n t s) (exec P eps m t s)) ->
+  (forall c b s, mle (exec_loop P eps n c b s) (exec_loop P eps m c b s)) ->
+  (forall b s, mle (exec_block P eps n b s) (exec_block P eps m b s)) ->
+  (forall e s, mle (eval P eps (S n) e s) (eval P eps (S m) e s)) /\
+  (forall t s, mle (exec P eps (S n) t s) (exec P eps (S m) t s)) /\
+  (forall c b s, mle (exec_loop P eps (S n) c b s) (exec_loop P eps (S m) c b s)) /\
+  (forall b s, mle (exec_block P eps (S n) b s) (exec_block P eps (S m) b s)).
+Proof.
+  intros He Hx Hl Hb.
+  pose proof (evals_with_mle _ _ He) as Hes.
+  pose proof (indices_with_mle _ _ He) as His.
+  pose proof (mutate_with_mle _ _ He) as Hmu.
+  pose proof (stmts_with_mle _ _ Hx) as Hst.
+  refine (conj _ (conj _ (conj _ _))).
+  - intros e s. cbn [eval].
+    destruct e; try apply mle_refl.
+    + (* EBin *) destruct op;
+        repeat (first [ apply He | apply Hes | apply His | apply Hmu | apply Hb | mle_step ]).
+    + (* EUn *) repeat (first [ apply He | mle_step ]).
+    + (* EArr *) repeat (first [ apply Hes | mle_step ]).
+    + (* EIdx *) repeat (first [ apply He | mle_step ]).
+    + (* ECall *)
+      destruct e; try apply mle_refl.
+      * (* callee EVar *)
+        repeat (first [ apply He | apply Hes | apply Hb | mle_step ]).
+      * (* callee EMember *)
+        repeat (first [ apply He | apply Hes | apply His | apply Hmu | apply Hb | mle_step ]).
+  - intros t s. cbn [exec].
+    destruct t; repeat (first [ apply He | apply His | apply Hb | apply Hl | mle_step ]).
+  - intros c b s. cbn [exec_loop].
+    repeat (first [ apply He | apply Hb | apply Hl | mle_step ]).
+  - intros b s. cbn [exec_block].
+    repeat (first [ apply Hst | mle_step ]).
+Qed.
+
+Theorem mono_succ : forall n,
+  (forall e s, mle (eval P eps n e s) (eval P eps (S n) e s)) /\
+  (forall t s, mle (exec P eps n t s) (exec P eps (S n) t s)) /\
+  (forall c b s, mle (exec_loop P eps n c b s) (exec_loop P eps (S n) c b s)) /\
+  (forall b s, mle (exec_block P eps n b s) (exec_block P eps (S n) b s)).
+Proof.
+  induction n as [|n (He & Hx & Hl & Hb)].
+  - refine (conj _ (conj _ (conj _ _))); intros; apply mle_fuel.
+  - apply mono_step; assumption.
+Qed.
+
+Lemma mle_trans {A} (x y z : M A) : mle x y -> mle y z -> mle x z.
+Proof.
+  intros H1 H2 Hnf. assert (E : x = y) by (apply H1; exact Hnf). subst y. apply H2; exact Hnf.
+Qed.
+
+Theorem exec_block_mono : forall (n m : nat) b s, (n <= m)%nat ->
+  mle (exec_block P eps n b s) (exec_block P eps m b s).
+Proof.
+  intros n m b s Hle. induction Hle as [|m Hle IH].
+  - apply mle_refl.
+  - eapply mle_trans; [exact IH|]. apply (mono_succ m).
+Qed.
+
+Theorem eval_mono : forall (n m : nat) e s, (n <= m)%nat ->
+  mle (eval P eps n e s) (eval P eps m e s).
+Proof.
+  intros n m e s Hle. induction Hle as [|m Hle IH].
+  - apply mle_refl.
+  - eapply mle_trans; [exact IH|]. apply (mono_succ m).
+Qed.
+
+End Mono.
+
+(* whole programs: a run that does not exhaust its fuel is reproduced by any larger fuel *)
+Theorem run_impl_fuel_mono : forall p eps (n m : nat) prog outs e,
+  (n <= m)%nat -> run_impl p eps n prog = (outs, e) -> e <> EFuel ->
+  run_impl p eps m prog = (outs, e).
+Proof.
+  intros p eps n m prog outs e Hle Hrun Hne.
+  unfold run_impl in *.
+  pose proof (exec_block_mono p eps n m prog init_st Hle) as Hm.
+  destruct (exec_block p eps n prog init_st) as [o r] eqn:E1.
+  assert (Hnf : is_fuel r = false).
+  { destruct r; try reflexivity. inversion Hrun; subst. contradiction Hne; reflexivity. }
+  specialize (Hm Hnf). rewrite <- Hm. exact Hrun.
+Qed.
